@@ -499,7 +499,7 @@ Section C05.
     match mopt m with
     | None => msched m = None
     | Some o => o < hnext h /\ mparams m <> [] /\
-                exists ob, ho h o = Some ob /\ length (oparams ob) = length (mparams m)
+                exists ob, ho h o = Some ob /\ length (oparams ob) = length (mparams m) /\ NoDup (oparams ob)
     end /\
     match msched m with
     | None => True
@@ -540,6 +540,87 @@ Arguments losses {L R C} r.
 Arguments lrs {L R C} r.
 Arguments hh {V M L R C SS} s.
 Arguments rc {V M L R C SS} s.
+
+
+(* type arguments are implicit from here on (inferred from the heap / state arguments) *)
+Arguments fupd {A} f i a _.
+Arguments st_lookup {M} l r.
+Arguments st_set {M} l r ps.
+Arguments st_put {M} l r o.
+Arguments grad_map {G} ps gs _.
+Arguments opt_step1 {V G M R} opt_update gm acc r.
+Arguments opt_step_model {V G M R C SS} opt_update h mg.
+Arguments zipd {G C} ms gs.
+Arguments cur_lr {V M R C SS} h m.
+Arguments has_key {R} k l.
+Arguments record_lrs {R} Rzero niter cur old.
+Arguments sched_step_model {V M L R C SS} sched_step loss h m.
+Arguments iterate {V G M L R C SS} Rzero forward opt_update sched_step s.
+Arguments run {V G M L R C SS} Rzero forward opt_update sched_step k s.
+Arguments rekey_by_position {M} new_params old_state.
+Arguments rekey_by_param {M} old_params new_params old_state.
+Arguments reconnect_model {V M R C SS} written h m.
+Arguments reconnect_all {V M R C SS} written h ms.
+Arguments to_dev {V M L R C SS} written s.
+Arguments shift_opt {M R} b ob.
+Arguments shift_sched {SS} b sb.
+Arguments copy_heap {V M R SS} h nb.
+Arguments copy_model {C} n a m.
+Arguments copy_models {C} n a i ms.
+Arguments copy_st {V M L R C SS} g s.
+Arguments save {V M L R C SS} written g s.
+Arguments load {V M L R C SS} written dev file.
+Arguments reload {V M L R C SS} written g dev s.
+Arguments clone {V M L R C SS} written s.
+Arguments clone_fallback {V M L R C SS} written s.
+Arguments upd_nth {A} l i f.
+Arguments set_opt {V M L R C SS} sched_init i k lr sc s.
+Arguments remove_opt {V M L R C SS} i s.
+Arguments set_cons {V M L R C SS} i c s.
+Arguments init_models {V C} next spec.
+Arguments init_st {V M L R C SS} spec.
+Arguments OpSetOpt {R C SS} i k lr sc.
+Arguments OpRemoveOpt {R C SS} i.
+Arguments OpSetCons {R C SS} i c.
+Arguments OpIter {R C SS}.
+Arguments OpTo {R C SS}.
+Arguments OpSaveContinue {R C SS}.
+Arguments OpReload {R C SS} dev.
+Arguments OpClone {R C SS}.
+Arguments OpCloneFallback {R C SS}.
+Arguments OpModelReload {R C SS} i.
+Arguments apply_op {V G M L R C SS} Rzero forward opt_update sched_init sched_step written o s.
+Arguments run_ops {V G M L R C SS} Rzero forward opt_update sched_init sched_step written ops s.
+Arguments mview_of {V M R C SS} h m.
+Arguments view_of {V M L R C SS} s.
+Arguments obs_of_view {V M L R C SS} v.
+Arguments obs {V M L R C SS} s.
+Arguments vstep_param {V G M R} opt_update k lr v g ps.
+Arguments vstep_params {V G M R} opt_update k lr vs gs sts.
+Arguments vstep_model {V G M R C SS} opt_update mv gs.
+Arguments vstep_models {V G M R C SS} opt_update mvs gs.
+Arguments vcur_lr {V M R C SS} mv.
+Arguments vsched_model {V M L R C SS} sched_step loss mv.
+Arguments step_view {V G M L R C SS} Rzero forward opt_update sched_step v.
+Arguments bound {V M R C SS} h m.
+Arguments sep {C} m m'.
+Arguments binding_inv {V M L R C SS} s.
+Arguments prebound {V M R C SS} h m.
+Arguments loaded_inv {V M L R C SS} s.
+Arguments aligned_opt {M R} ob.
+Arguments aligned {V M L R C SS} s.
+Arguments vvals {V M R C SS} m.
+Arguments vcons {V M R C SS} m.
+Arguments vopt {V M R C SS} m.
+Arguments vsched {V M R C SS} m.
+Arguments vmodels {V M L R C SS} v.
+Arguments vlosses {V M L R C SS} v.
+Arguments vlrs {V M L R C SS} v.
+Arguments o_iters {V L R C} o.
+Arguments o_losses {V L R C} o.
+Arguments o_lrs {V L R C} o.
+Arguments o_cons {V L R C} o.
+Arguments o_vals {V L R C} o.
 
 (* ================================================================= structural instance *)
 (* The instance the harness runs next to the real library.  Values are update counters, the
